@@ -92,6 +92,7 @@ pub struct Outcome {
     pub max_held_depth: usize,
     pub blocked_events: u64,
     pub readers_admitted_past_waiting_writer: u64,
+    pub time_jumps: u64,
     pub events: Vec<(u64, u32, u8, u32)>,
 }
 
@@ -120,6 +121,8 @@ enum St {
     Runnable,
     BlockedLock(u32),
     BlockedJoin(usize),
+    /// parked until the global step counter reaches the value (virtual time = scheduler steps)
+    Sleeping(u64),
     Finished,
 }
 
@@ -154,6 +157,7 @@ struct State {
     readers_past_writer: u64,
     pct_change_points: Vec<u64>,
     pct_next: usize,
+    time_jumps: u64,
     os_handles: Vec<std::thread::JoinHandle<()>>,
     live: usize,
 }
@@ -226,6 +230,33 @@ impl State {
         }
     }
 
+    /// Wake sleepers whose deadline has passed; when nothing else can run, jump to the earliest
+    /// deadline (discrete-event style) instead of declaring a deadlock.
+    fn wake_sleepers(&mut self) {
+        let now = self.steps;
+        for t in self.threads.iter_mut() {
+            if let St::Sleeping(at) = t.st {
+                if at <= now {
+                    t.st = St::Runnable;
+                }
+            }
+        }
+        if !self.threads.iter().any(|t| t.st == St::Runnable) {
+            let mut best: Option<(u64, usize)> = None;
+            for (i, t) in self.threads.iter().enumerate() {
+                if let St::Sleeping(at) = t.st {
+                    if best.map(|b| at < b.0).unwrap_or(true) {
+                        best = Some((at, i));
+                    }
+                }
+            }
+            if let Some((_, i)) = best {
+                self.threads[i].st = St::Runnable;
+                self.time_jumps += 1;
+            }
+        }
+    }
+
     fn runnable(&self) -> Vec<usize> {
         self.threads
             .iter()
@@ -252,6 +283,7 @@ impl State {
 
     /// Choose who runs next. `me_ok` = the asking thread may continue.
     fn choose(&mut self, me: usize, me_ok: bool) -> Option<usize> {
+        self.wake_sleepers();
         let r = self.runnable();
         if r.is_empty() {
             return None;
@@ -438,6 +470,23 @@ pub fn rand_below(n: u32) -> u32 {
     v
 }
 
+/// Park the calling thread until `n` more scheduler steps have been executed by anyone (virtual
+/// time).  If nobody else can run, the clock jumps.
+pub fn sleep_steps(n: u64) {
+    let Some((inner, me)) = current() else { return };
+    if n == 0 || std::thread::panicking() {
+        return;
+    }
+    let mut g = lock_state(&inner);
+    if g.abort.is_some() {
+        abort_unwind(g, me);
+    }
+    g.log(me, EV_USER, 0x51ee);
+    let at = g.steps + n;
+    g.threads[me].st = St::Sleeping(at);
+    handoff(&inner, g, me, false);
+}
+
 /// Number of scheduler steps executed so far by the calling simulated thread.
 pub fn own_steps() -> u64 {
     let Some((inner, me)) = current() else { return 0 };
@@ -621,6 +670,7 @@ pub fn run<R: Send + 'static, F: FnOnce() -> R + Send + 'static>(cfg: Cfg, f: F)
         readers_past_writer: 0,
         pct_change_points: pct_points,
         pct_next: 0,
+        time_jumps: 0,
         os_handles: vec![],
         live: 0,
     };
@@ -685,6 +735,7 @@ pub fn run<R: Send + 'static, F: FnOnce() -> R + Send + 'static>(cfg: Cfg, f: F)
         max_held_depth: g.max_held_depth,
         blocked_events: g.blocked_events,
         readers_admitted_past_waiting_writer: g.readers_past_writer,
+        time_jumps: g.time_jumps,
         events: g.events.clone(),
     };
     drop(g);
